@@ -16,7 +16,7 @@ pub fn prop() -> Prop {
     Prop {
         id: "C12",
         level: "exploration",
-        rule: "(1) the call slice: a prelude of functions with 0-2 parameters and 0-2 locals (a marker function that prints its argument so evaluation order is observable, non-commutative bodies, an accumulating recursion, a function taking a function, a function returning a function) and every expression of up to N nodes over calls of them in operand, argument, array-element, condition and initialiser positions, compared with the reference interpreter; (2) a generated family of 0..4 parameters x 0..4 locals x every pending-operand shape, incl. empty bodies and locals in sibling blocks; an arity ladder (every parameter count up to 12 and around every power of two up to the 255 the call instruction carries, x 0/1/3 locals, every parameter read back); (3) directed recursion: self and mutual recursion with 0, 1 and 2 pending operands per level to depth 1, 2, 3, 10, 200, 5 000, 20 000 and across the 65 535-slot limit (beyond the limit: an error, never a wrong value). Non-trivial = at least one user function call executed and defined by the model; distinct = distinct texts",
+        rule: "(1) the call slice: a prelude of functions with 0-2 parameters and 0-2 locals (a marker function that prints its argument so evaluation order is observable, non-commutative bodies, an accumulating recursion, a function taking a function, a function returning a function) and every expression of up to N nodes over calls of them in operand, argument, array-element, condition and initialiser positions, compared with the reference interpreter; (2) a generated family of 0..4 parameters x 0..4 locals x every pending-operand shape, incl. empty bodies and locals in sibling blocks; an arity ladder (every parameter count up to 12 and around every power of two up to the 255 the call instruction carries, x 0/1/3 locals, every parameter read back); (2c) rebinding: a name holding a function is given another one (assignment, `stel`, a second declaration, through a function, in a branch, in a loop) while call sites compiled earlier are still to run; (3) directed recursion: self and mutual recursion with 0, 1 and 2 pending operands per level to depth 1, 2, 3, 10, 200, 5 000, 20 000 and across the 65 535-slot limit (beyond the limit: an error, never a wrong value). Non-trivial = at least one user function call executed and defined by the model; distinct = distinct texts",
         assumptions: &["arity mismatch is unspecified (U6) and not compared", "beyond 65 535 live stack slots only 'an error, not a wrong value or crash' is required (U9)"],
         run,
         replay,
@@ -197,6 +197,68 @@ fn arity_ladder() -> Vec<Vec<Stmt>> {
     out
 }
 
+/// Rebinding: a name that holds a function is given another function (by assignment, by `stel`, by a second
+/// `functie` declaration; at top level, inside a function through the global, inside a loop) while call sites
+/// compiled EARLIER (in another function's body, earlier in the loop body) are still to run: a call always
+/// runs the function the name holds at the moment of the call.
+fn rebinding() -> Vec<Vec<Stmt>> {
+    let mut out = Vec::new();
+    let f1 = || func("f", &["a", "b"], vec![es(infix(id("a"), Operator::Subtract, id("b")))]);
+    let other = || func("", &["a", "b"], vec![es(infix(infix(id("a"), Operator::Multiply, int(10)), Operator::Add, id("b")))]);
+    let caller = || es(func("g", &["x"], vec![es(calln("f", vec![id("x"), int(1)]))]));
+    let rebinds: Vec<Vec<Stmt>> = vec![
+        vec![es(assign(id("f"), other()))],
+        vec![let_("f", other())],
+        vec![es(func("f", &["a", "b"], vec![es(infix(id("b"), Operator::Subtract, id("a")))]))],
+        vec![let_("oud", id("f")), es(assign(id("f"), func("", &["a", "b"], vec![es(calln("oud", vec![id("b"), id("a")]))])))],
+        vec![es(func("zet", &[], vec![es(assign(id("f"), other())), es(int(0))])), es(calln("zet", vec![]))],
+        vec![es(iff(boolean(true), vec![es(assign(id("f"), other()))], None))],
+    ];
+    for rb in &rebinds {
+        // a caller compiled before the rebinding, run before and after it
+        let mut p = vec![es(f1()), caller(), print1(calln("g", vec![int(5)])), print1(calln("f", vec![int(5), int(1)]))];
+        p.extend(rb.iter().cloned());
+        p.push(print1(calln("g", vec![int(5)])));
+        p.push(print1(calln("f", vec![int(5), int(1)])));
+        p.push(es(array(vec![calln("g", vec![int(7)]), calln("f", vec![int(7), int(1)])])));
+        out.push(p);
+        // the caller defined first, the function declared after it (the call site precedes every binding)
+        let mut p = vec![let_("f", int(0)), caller(), es(assign(id("f"), f1())), print1(calln("g", vec![int(5)]))];
+        p.extend(rb.iter().cloned());
+        p.push(print1(calln("g", vec![int(5)])));
+        out.push(p);
+        // in a loop: the call earlier in the body than the rebinding
+        let mut body = vec![es(op_assign("i", Operator::Add, int(1))), print1(calln("f", vec![id("i"), int(1)]))];
+        body.push(es(iff(infix(id("i"), Operator::Eq, int(2)), rb.clone(), None)));
+        out.push(vec![es(f1()), let_("i", int(0)), es(whil(infix(id("i"), Operator::Lt, int(4)), body)), es(calln("f", vec![int(9), int(1)]))]);
+    }
+    // a function-valued local rebound in a loop inside a function; a callee passed as an argument twice
+    out.push(vec![
+        es(func("plus", &["x"], vec![es(infix(id("x"), Operator::Add, int(1)))])),
+        es(func("keer", &["x"], vec![es(infix(id("x"), Operator::Multiply, int(10)))])),
+        es(func(
+            "loop",
+            &[],
+            vec![
+                let_("h", id("plus")),
+                let_("acc", int(0)),
+                let_("i", int(0)),
+                es(whil(
+                    infix(id("i"), Operator::Lt, int(4)),
+                    vec![
+                        es(op_assign("i", Operator::Add, int(1))),
+                        es(assign(id("acc"), infix(infix(id("acc"), Operator::Multiply, int(100)), Operator::Add, calln("h", vec![id("i")])))),
+                        es(iff(infix(id("i"), Operator::Eq, int(2)), vec![es(assign(id("h"), id("keer")))], None)),
+                    ],
+                )),
+                es(id("acc")),
+            ],
+        )),
+        es(calln("loop", vec![])),
+    ]);
+    out
+}
+
 /// (program, depth, stack slots per level, expected value rendering)
 fn deep() -> Vec<(String, u64, u64, String)> {
     let mut v = Vec::new();
@@ -275,6 +337,22 @@ fn run(sh: &mut Shard) {
         if let Some(r) = differential(sh, "calls", &prog, opts(100_000)) {
             if !matches!(r.model.end, End::Unspec(_) | End::Diverge) {
                 sh.nontrivial(&printer::program(&prog));
+            }
+        }
+    }
+    // (2c) rebinding of function-valued names
+    for prog in rebinding() {
+        if !sh.mine() {
+            continue;
+        }
+        sh.begin(&|| printer::program(&prog));
+        sh.count("family:rebinding");
+        if let Some(r) = differential(sh, "calls", &prog, opts(100_000)) {
+            if !matches!(r.model.end, End::Unspec(_) | End::Diverge) {
+                sh.nontrivial(&printer::program(&prog));
+            } else {
+                // (the variant that saves the old function in a block-local inside the loop body is U2)
+                sh.count("rebinding-unspecified");
             }
         }
     }
